@@ -98,7 +98,11 @@ class FaultSync(Suite):
             notes.append("%d goroutine(s) of the faulty run still alive: %s" % (r1["alive"], r1.get("alive_at")))
         if r1["recv"] == "ok" and model.get("c01_mid") is False:
             ok = False
-            notes.append("Receive reported success but the destination differs from the view: %s" % model.get("c01_mid_why"))
+            vp = {e["p"] for e in impl.get("view", [])}
+            mp = {e["p"] for e in impl.get("mid", [])}
+            notes.append("Receive reported success but the destination differs from the view: %s (only in the destination: %s; only in the view: %s; stream log tail: %s)" % (
+                model.get("c01_mid_why"), sorted(mp - vp)[:4], sorted(vp - mp)[:4],
+                [(e.get("e"), e.get("k"), e.get("t")) for e in r1.get("log", [])[-6:]]))
         if r1["send"] == "ok" and not any(e["e"] == "S" and e["k"] == "recv" and e.get("t") == "FIN" for e in r1.get("log", [])):
             ok = False
             notes.append("Send reported success without having received FIN")
